@@ -81,6 +81,9 @@ type MapScen struct {
 	NoBlock   []bool
 	MaxSteps  []int
 	Bound     int // preemption bound (0 = unbounded)
+	Classes   int
+	CheckFn   bool
+	Expect    int // expected minimum number of distinct outcomes
 	MaxStates int
 	// VisitorOp: if set, the Range visitor performs this op on first visit (re-entrancy)
 	VisitorOp *MIn
@@ -210,9 +213,10 @@ func (r rangeOut) String() string { return fmt.Sprint(r.Pairs) }
 
 // Scenario converts the description into an explorable scenario.
 func (ms *MapScen) Scenario() *Scenario {
-	lc := newLinChecker(mapModel)
+	lc := newLinChecker(makeMapModel(ms.CheckFn))
 	name := ms.name()
-	sc := &Scenario{Name: name, Prop: ms.Prop, NoBlock: ms.NoBlock, MaxSteps: ms.MaxSteps, PreemptBound: ms.Bound, MaxStates: ms.MaxStates}
+	sc := &Scenario{Name: name, Prop: ms.Prop, NoBlock: ms.NoBlock, MaxSteps: ms.MaxSteps, PreemptBound: ms.Bound, MaxStates: ms.MaxStates,
+		Classes: ms.Classes, ExpectOutcomes: ms.Expect}
 	sc.New = func() *Instance {
 		m, st0 := ms.setup()
 		hist := make([][]HOp, len(ms.Threads))
@@ -240,7 +244,8 @@ func (ms *MapScen) Scenario() *Scenario {
 			}
 			return s
 		}
-		inst.Finish = func(res *sched.Result) (string, string) {
+		inst.Finish = func(res *sched.Result) (string, []OViol) {
+			var viols []OViol
 			all = all[:0]
 			for t := range hist {
 				all = append(all, hist[t]...)
@@ -280,7 +285,7 @@ func (ms *MapScen) Scenario() *Scenario {
 				}
 			}}, sched.Config{Horizon: 200000})
 			if er.Outcome != sched.OComplete {
-				return "epilogue:" + er.Outcome.String(), "C13: quiescent epilogue did not terminate (" + er.Outcome.String() + "): " + er.Detail
+				return "epilogue:" + er.Outcome.String(), []OViol{{OTerm, "quiescent epilogue did not terminate (" + er.Outcome.String() + "): " + er.Detail}}
 			}
 			all = append(all, epi...)
 			// outcome digest
@@ -306,7 +311,7 @@ func (ms *MapScen) Scenario() *Scenario {
 				seen := map[int]int{}
 				for _, p := range ro.Pairs {
 					if _, dup := seen[p[0]]; dup {
-						return outcome, fmt.Sprintf("C07: Range visited key k%d twice: %v", p[0], ro.Pairs)
+						viols = append(viols, OViol{ORange, fmt.Sprintf("Range visited key k%d twice: %v", p[0], ro.Pairs)})
 					}
 					seen[p[0]] = p[1]
 				}
@@ -322,12 +327,21 @@ func (ms *MapScen) Scenario() *Scenario {
 					pre = append(pre, HOp{Thread: 8, In: MIn{Op: MStore, K: k, V: int(st0[k])}, Out: MOut{}, Call: int64(-100 + 2*k), Ret: int64(-99 + 2*k)})
 				}
 			}
+			if !ms.CheckFn {
+				// user-function observations belong to C05 only
+				for i := range lin {
+					if o, ok := lin[i].Out.(MOut); ok {
+						o.FnCalls, o.FnOld, o.FnLd = 0, 0, false
+						lin[i].Out = o
+					}
+				}
+			}
 			if !lc.Check(append(pre, lin...)) {
-				return outcome, "history is not linearizable w.r.t. map semantics"
+				viols = append(viols, OViol{OLin, "history is not linearizable w.r.t. map semantics"})
 			}
 			// (2) quiescent agreement of Size, Range and the physical entry count
 			if size != visits || size != stats.Phys || size != stats.Counter {
-				return outcome, fmt.Sprintf("C08: quiescent Size=%d, Range visits=%d, physical entries=%d, counter=%d", size, visits, stats.Phys, stats.Counter)
+				viols = append(viols, OViol{OCount, fmt.Sprintf("quiescent Size=%d, Range visits=%d, physical entries=%d, counter=%d", size, visits, stats.Phys, stats.Counter)})
 			}
 			// Range at quiescence shows exactly what Load shows
 			sort.Slice(rangePairs, func(i, j int) bool { return rangePairs[i][0] < rangePairs[j][0] })
@@ -338,9 +352,9 @@ func (ms *MapScen) Scenario() *Scenario {
 				}
 			}
 			if fmt.Sprint(loaded) != fmt.Sprint(rangePairs) {
-				return outcome, fmt.Sprintf("C07: quiescent Range %v differs from Loads %v", rangePairs, loaded)
+				viols = append(viols, OViol{ORange, fmt.Sprintf("quiescent Range %v differs from Loads %v", rangePairs, loaded)})
 			}
-			return outcome, ""
+			return outcome, viols
 		}
 		return inst
 	}
